@@ -5,8 +5,14 @@
   larger) `d` neither panics nor hangs, never un-reads, and the potential `alloc + K·|rest|`
   grows by at most `M·|rest| + B` (plus `E` when `d` ends with an error).  Hence, for a run from
   the empty state, `alloc ≤ (K+M)·|input| + B + E`.
+
+  The primitive reads (`u8r` … `u64r`, `bodyC`, `readFullC`) are built from index / reslice steps that
+  panic out of range; their `Safe` lemmas go through the equations of XMT/DecodeSlice.lean
+  (`u8r_eq`, `bodyC_eq`, `readFullC_eq`, …), each of which is proved by splitting on the Go guard and
+  discharging the bound of the index / reslice from it.  There is no `Safe` lemma for `idxP`,
+  `sliceP`, `sliceFromP`, `advanceP` on their own — they are not safe on their own.
 -/
-import XMT.Decode
+import XMT.DecodeSlice
 
 namespace XMT.Decode
 open XMT
@@ -119,12 +125,14 @@ theorem Bound.of_shrink {s s' : St} {B : Nat} (ha : s'.alloc = s.alloc)
   omega
 
 theorem safe_u8r : Safe K 0 0 0 u8r := by
+  rw [u8r_eq]
   intro ⟨rest, al, out⟩ _
   match rest with
   | [] => exact Bound.of_shrink rfl (Nat.le_refl _)
   | _ :: r => exact Bound.of_shrink rfl (by simp only [List.length_cons]; omega)
 
 theorem safe_u16r : Safe K 0 0 0 u16r := by
+  rw [u16r_eq]
   intro ⟨rest, al, out⟩ _
   match rest with
   | [] => exact Bound.of_shrink rfl (Nat.le_refl _)
@@ -132,6 +140,7 @@ theorem safe_u16r : Safe K 0 0 0 u16r := by
   | _ :: _ :: r => exact Bound.of_shrink rfl (by simp only [List.length_cons]; omega)
 
 theorem safe_u32r : Safe K 0 0 0 u32r := by
+  rw [u32r_eq]
   intro ⟨rest, al, out⟩ _
   match rest with
   | [] => exact Bound.of_shrink rfl (Nat.le_refl _)
@@ -141,6 +150,7 @@ theorem safe_u32r : Safe K 0 0 0 u32r := by
   | _ :: _ :: _ :: _ :: r => exact Bound.of_shrink rfl (by simp only [List.length_cons]; omega)
 
 theorem safe_u64r : Safe K 0 0 0 u64r := by
+  rw [u64r_eq]
   intro ⟨rest, al, out⟩ _
   match rest with
   | [] => exact Bound.of_shrink rfl (Nat.le_refl _)
@@ -154,13 +164,15 @@ theorem safe_u64r : Safe K 0 0 0 u64r := by
   | _ :: _ :: _ :: _ :: _ :: _ :: _ :: _ :: r => exact Bound.of_shrink rfl (by simp only [List.length_cons]; omega)
 
 theorem u16r_lt (s : St) (a : Nat) (s' : St) (h : u16r s = .ok a s') : a < 2 ^ 16 := by
-  unfold u16r at h
+  rw [u16r_eq] at h
+  unfold Spec.u16r at h
   split at h
   · injection h with h1 _; subst h1; exact ofBe16_lt _ _
   · cases h
 
 theorem u32r_lt (s : St) (a : Nat) (s' : St) (h : u32r s = .ok a s') : a < 2 ^ 32 := by
-  unfold u32r at h
+  rw [u32r_eq] at h
+  unfold Spec.u32r at h
   split at h
   · injection h with h1 _; subst h1; exact ofBe32_lt _ _ _ _
   · cases h
@@ -183,11 +195,12 @@ theorem safe_lenHdr : Safe K 0 0 0 lenHdr :=
   safe_bind0 safe_u8r safe_lenHdrK
 
 theorem safe_bodyC (hK : 1 ≤ K) (c : Bool) (l : Nat) : Safe K 0 0 0 (bodyC c l) := by
+  rw [bodyC_eq]
   intro s _
   by_cases hl : s.rest.length < l
-  · simp only [bodyC, hl, if_true]
+  · simp only [Spec.bodyC, hl, if_true]
     exact Bound.of_shrink rfl (by simp)
-  · simp only [bodyC, hl, if_false]
+  · simp only [Spec.bodyC, hl, if_false]
     simp only [Bound, List.length_drop]
     have e : K * s.rest.length = K * (s.rest.length - l) + K * l := by
       rw [← Nat.mul_add]; congr 1; omega
@@ -229,7 +242,8 @@ theorem safe_le {d : D α} (h : Safe K M B E d) {s s' : St} {a : α} (hs : s.res
 
 theorem u8r_consumes {s s' : St} {t : UInt8} (h : u8r s = .ok t s') :
     s'.rest.length + 1 = s.rest.length := by
-  unfold u8r at h
+  rw [u8r_eq] at h
+  unfold Spec.u8r at h
   cases hr : s.rest with
   | nil => rw [hr] at h; cases h
   | cons b r =>
@@ -301,8 +315,9 @@ theorem safe_guardResult (fl : Nat) : Safe K 0 0 0 (guardResult fl) := by
   · simp only [guardResult, h, if_false]; exact Bound.of_shrink rfl (Nat.le_refl _)
 
 theorem safe_readFullC (k : Nat) : Safe K 0 0 0 (readFullC k) := by
+  rw [readFullC_eq]
   intro s _
-  unfold readFullC
+  unfold Spec.readFullC
   simp only []
   by_cases h : (List.take k s.rest).length < k
   · simp only [h, if_true]; exact Bound.of_shrink rfl (by simp)
